@@ -4,10 +4,15 @@
 #include <ctpg/ctpg.hpp>
 #include <cstdio>
 #include <string>
+#include <tuple>
+#include <sys/resource.h>
+#include <optional>
 
 using namespace ctpg;
 using namespace ctpg::ftors;
 
+// the parser constructor keeps its whole analysis state in a local variable (tens of MB for 9-symbol rules): raise the stack limit first
+__attribute__((constructor(101))) static void raise_stack_limit() { rlimit rl{}; if (getrlimit(RLIMIT_STACK, &rl) == 0) { rl.rlim_cur = rl.rlim_max; setrlimit(RLIMIT_STACK, &rl); } }
 static long g_cases = 0, g_checks = 0, g_fail = 0, g_refused = 0; static std::string g_first;
 template<class F> static void must_refuse(const char* what, F make) {
     ++g_cases; ++g_checks;
@@ -31,7 +36,30 @@ static int to_i(std::string_view) { return 1; }
 #define NTERMS nterms(list, item)
 #define GOOD_RULES list(item), list(list, ',', item) >= [](int a, skip, int b){ return a + b; }, item('a') >= val(1), item("ab") >= val(2), item(ident) >= val(3)
 
+// position- and size-dependent cases: the undeclared symbol at each of the 9 positions of a 9-symbol rule, in the 20th rule, and names that
+// share a 60-character prefix with a declared name
+template<bool Bad> constexpr auto pick_sym() { if constexpr (Bad) return zz; else return char_term('a'); }
+template<size_t K, size_t... I> static auto long_rule(std::index_sequence<I...>) { return item(pick_sym<I == K>()...) >= [](auto&&...) { return 1; }; }
+template<size_t N, size_t... I> static auto a_run(std::index_sequence<I...>) { return item(((void)I, char_term('a'))...) >= [](auto&&...) { return int(N); }; }
+template<size_t... K> static auto filler_rules(std::index_sequence<K...>) { return std::make_tuple(a_run<K + 2>(std::make_index_sequence<K + 2>{})...); }
+constexpr nterm<int> longA("a_nonterminal_with_a_very_long_descriptive_name_that_goes_on_and_on_A");
+constexpr nterm<int> longB("a_nonterminal_with_a_very_long_descriptive_name_that_goes_on_and_on_B");
+constexpr nterm<int> longAx("a_nonterminal_with_a_very_long_descriptive_name_that_goes_on_and_on_Ax");
+template<size_t K> static void undeclared_at() {
+    static const std::string what = "undeclared nonterminal at position " + std::to_string(K + 1) + " of a 9-symbol rule";
+    must_refuse(what.c_str(), [] { parser p(list, TERMS, NTERMS, rules(GOOD_RULES, long_rule<K>(std::make_index_sequence<9>{}))); (void)p; });
+}
+template<size_t... K> static void undeclared_at_all(std::index_sequence<K...>) { (undeclared_at<K>(), ...); }
 int main() {
+    undeclared_at_all(std::make_index_sequence<9>{});
+    must_accept("9-symbol rule of declared symbols", [] { parser p(list, TERMS, NTERMS, rules(GOOD_RULES, a_run<9>(std::make_index_sequence<9>{}))); (void)p; });
+    must_refuse("undeclared symbol in the 21st rule (after 15 filler rules)", [] { std::apply([](auto... f) { parser p(list, TERMS, NTERMS, rules(GOOD_RULES, f..., item(zz) >= val(9))); (void)p; }, filler_rules(std::make_index_sequence<15>{})); });
+    must_refuse("undeclared left side in the 21st rule", [] { std::apply([](auto... f) { parser p(list, TERMS, NTERMS, rules(GOOD_RULES, f..., zz('a') >= val(9))); (void)p; }, filler_rules(std::make_index_sequence<15>{})); });
+    must_accept("21 rules, all symbols declared", [] { std::apply([](auto... f) { parser p(list, TERMS, NTERMS, rules(GOOD_RULES, f..., item(ident, ',', ident) >= val(9))); (void)p; }, filler_rules(std::make_index_sequence<15>{})); });
+    must_refuse("69-character name differing from a declared one in its last character", [] { parser p(list, TERMS, nterms(list, item, longA), rules(GOOD_RULES, longA('a') >= val(1), item(longB))); (void)p; });
+    must_refuse("name extending a declared 69-character name", [] { parser p(list, TERMS, nterms(list, item, longA), rules(GOOD_RULES, longA('a') >= val(1), item(longAx))); (void)p; });
+    must_refuse("declared 70-character name, undeclared 69-character prefix of it", [] { parser p(list, TERMS, nterms(list, item, longAx), rules(GOOD_RULES, longAx('a') >= val(1), item(longA))); (void)p; });
+    must_accept("two 69-character names differing in the last character, both declared", [] { parser p(list, TERMS, nterms(list, item, longA, longB), rules(GOOD_RULES, longA('a') >= val(1), longB(longA), item(longB, ','))); (void)p; });
     must_accept("reference grammar", [] { parser p(list, TERMS, NTERMS, rules(GOOD_RULES)); (void)p; });
     // undeclared nonterminal on a right side
     must_refuse("rhs nterm 'zz'", [] { parser p(list, TERMS, NTERMS, rules(GOOD_RULES, item(zz))); (void)p; });
